@@ -33,6 +33,7 @@ class ModuleSrc:
         self.classes = {}    # name -> ClassDef
         self.imports = {}    # local name -> (module dotted, attr or None)
         self.globals = {}    # simple module-level constants: name -> ast expr
+        self.class_consts = {}   # (class, name) -> ast expr  (class-level assignments)
         self._index()
 
     def _index(self):
@@ -44,6 +45,10 @@ class ModuleSrc:
                 for sub in node.body:
                     if isinstance(sub, ast.FunctionDef):
                         self.funcs["%s.%s" % (node.name, sub.name)] = sub
+                    elif isinstance(sub, ast.Assign) and len(sub.targets) == 1 and isinstance(sub.targets[0], ast.Name):
+                        self.class_consts[(node.name, sub.targets[0].id)] = sub.value
+                    elif isinstance(sub, ast.AnnAssign) and isinstance(sub.target, ast.Name) and sub.value is not None:
+                        self.class_consts[(node.name, sub.target.id)] = sub.value
             elif isinstance(node, ast.Import):
                 for a in node.names:
                     self.imports[a.asname or a.name.split(".")[0]] = (a.name, None)
